@@ -664,38 +664,45 @@ func (k *vCtl) reqPulseLengths() {
 	type pl struct{ ns, npre int }
 	p := vPick(r, pl{0, 4}, pl{-5, 3}, pl{16, 0}, pl{16, 16}, pl{16, 20}, pl{16, 2}, pl{k.ns, k.npre}, pl{40, 10}, pl{24, 6}, pl{64, 3}, pl{4, 3},
 		pl{k.ns, k.npre + 1}, pl{k.ns, 3}, pl{k.ns + 8, k.npre}) // also: only one of the two lengths changes
-	want := "ok"
-	switch {
-	case p.ns <= 0 || p.npre <= 0:
-		want = "err"
-	case p.ns == k.ns && p.npre == k.npre:
-		want = "ok"
-	case k.wActive:
-		want = "err"
-	case p.npre < 3 || p.ns < p.npre+1:
-		want = "err"
-	case k.emtOn:
-		want = "any" // edge-multi parameters restrict the admissible lengths further
-	}
-	if g := k.gate(); g != "" {
-		// the non-queued early answers (non-positive, unchanged) may come before the source check
-		want = "any"
-		if g == "err" && p.ns > 0 && p.npre > 0 && !(p.ns == k.ns && p.npre == k.npre) {
+	for rep := 0; rep < 2; rep++ {
+		want := "ok"
+		switch {
+		case p.ns <= 0 || p.npre <= 0:
 			want = "err"
+		case p.ns == k.ns && p.npre == k.npre:
+			want = "ok"
+		case k.wActive:
+			want = "err"
+		case p.npre < 3 || p.ns < p.npre+1:
+			want = "err"
+		case k.emtOn:
+			want = "any" // edge-multi parameters restrict the admissible lengths further
 		}
-	}
-	if !(p.ns == k.ns && p.npre == k.npre) {
-		k.sureProj = map[int]bool{} // whatever the outcome, models may have been dropped on some channels
-	}
-	var okay bool
-	err, ret := k.do(fmt.Sprintf("ConfigurePulseLengths(nsamp=%d,npre=%d)", p.ns, p.npre), want, func() error { return k.sc.ConfigurePulseLengths(SizeObject{Nsamp: p.ns, Npre: p.npre}, &okay) })
-	if ret && want == "any" && err != nil {
-		k.lenUnknown = true // the change may have been applied to some channels only
-	}
-	// (also while a source is ending itself: a request that still got through has changed the lengths the server compares the next one with)
-	if ret && err == nil && (want == "ok" || want == "any") && !(p.ns == k.ns && p.npre == k.npre) {
-		k.ns, k.npre = p.ns, p.npre
-		k.hasProj = map[int]bool{} // projectors sized for the old length no longer fit; the model forgets them conservatively
+		if g := k.gate(); g != "" {
+			// the non-queued early answers (non-positive, unchanged) may come before the source check
+			want = "any"
+			if g == "err" && p.ns > 0 && p.npre > 0 && !(p.ns == k.ns && p.npre == k.npre) {
+				want = "err"
+			}
+		}
+		if !(p.ns == k.ns && p.npre == k.npre) {
+			k.sureProj = map[int]bool{} // whatever the outcome, models may have been dropped on some channels
+		}
+		var okay bool
+		err, ret := k.do(fmt.Sprintf("ConfigurePulseLengths(nsamp=%d,npre=%d)", p.ns, p.npre), want, func() error { return k.sc.ConfigurePulseLengths(SizeObject{Nsamp: p.ns, Npre: p.npre}, &okay) })
+		if ret && want == "any" && err != nil {
+			k.lenUnknown = true // the change may have been applied to some channels only
+		}
+		// (also while a source is ending itself: a request that still got through has changed the lengths the server compares the next one with)
+		if ret && err == nil && (want == "ok" || want == "any") && !(p.ns == k.ns && p.npre == k.npre) {
+			k.ns, k.npre = p.ns, p.npre
+			k.hasProj = map[int]bool{} // projectors sized for the old length no longer fit; the model forgets them conservatively
+		}
+		// a refused request is refused again when it is repeated (the server must not have remembered what it refused)
+		if !(ret && err != nil && want == "err" && p.ns > 0 && p.npre > 0 && !k.dead && vChance(r, 0.5)) {
+			break
+		}
+		k.c.Cov("refused_length_requests_repeated", 1)
 	}
 }
 
@@ -1371,6 +1378,60 @@ func (k *vCtl) twoClients() {
 	k.progress("two clients")
 }
 
+// restartSelfEnded: the source ended by itself while a raw-data request was being collected. Once it has settled the same object
+// is started again (with the same or another number of channels): blocks must be processed, and a new raw-data request must be
+// accepted and completed (what the ended run left behind must not be carried into the new one).
+func (k *vCtl) restartSelfEnded() {
+	self := k.self
+	for j := 0; j < 2000 && self.GetState() != Inactive; j++ {
+		time.Sleep(time.Millisecond)
+	}
+	if self.GetState() != Inactive {
+		return
+	}
+	k.settled = true
+	k.reqStop()
+	if k.dead {
+		return
+	}
+	r := k.c.R
+	self.endNow = make(chan struct{})
+	atomic.StoreInt32(&self.ended, 0)
+	if vChance(r, 0.5) {
+		self.nchan = vPick(r, 2, 4, 5)
+	}
+	sc := k.sc
+	sc.ActiveSource = self
+	sc.status.Running = true
+	err, ret := k.do(fmt.Sprintf("Start(the self-ended object again, %d channels)", self.nchan), "ok", func() error { return Start(self, sc.queuedRequests, k.npre, k.ns) })
+	if !ret || err != nil {
+		return
+	}
+	sc.isSourceActive = true
+	sc.status.Nchannels = self.nchan
+	k.nchan = self.nchan
+	k.active, k.selfEnded, k.settled, k.archiving = true, false, false, false
+	k.wActive, k.wPaused, k.emtOn, k.lenUnknown = false, false, false, false
+	k.hasProj, k.sureProj = map[int]bool{}, map[int]bool{}
+	k.progress("the restart of the self-ended object")
+	if k.dead {
+		return
+	}
+	var s string
+	if err, ret := k.do("StoreRawDataBlock(50) [after the restart]", "ok", func() error { return k.sc.StoreRawDataBlock(50, &s) }); ret && err == nil {
+		for i := 0; i < 3000; i++ {
+			if _, e := os.Stat(s); e == nil {
+				k.c.Cov("raw_blocks_completed", 1)
+				break
+			}
+			time.Sleep(time.Millisecond)
+		}
+		os.Remove(s)
+		os.Remove(strings.Replace(s, ".npz", "_inprogress.npz", 1))
+		k.c.Cov("restarts_of_a_self_ended_object_with_raw_request_pending", 1)
+	}
+}
+
 func vRunControl(c *vCase) {
 	viper.Reset()
 	kind := []string{"triangle", "triangle", "lancero", "selfend", "selfend", "erroring"}[c.Idx%6]
@@ -1420,6 +1481,7 @@ func vRunControl(c *vCase) {
 		endAt = vRange(r, 2, nreq-2)
 	}
 	stopThenStart := false
+	pendingAtEnd := false        // a raw-data request was being collected when the source ended itself
 	stopFirst := vChance(r, 0.3) // after the source has ended by itself the very next request is Stop, then a new Start
 	for i := 0; i < nreq && !k.dead; i++ {
 		if stopFirst && k.selfEnded && (k.settled || kind == "erroring") {
@@ -1464,6 +1526,14 @@ func vRunControl(c *vCase) {
 			}
 		}
 		if i == endAt && !k.selfEnded {
+			if !k.flood && !k.archiving && vChance(r, 0.5) {
+				// a raw-data request that is still collecting when the source ends (2^27 samples are never reached)
+				var s string
+				if err, ret := k.do("StoreRawDataBlock(2^27) [still collecting when the source ends]", "any", func() error { return k.sc.StoreRawDataBlock(1<<27, &s) }); ret && err == nil {
+					k.archiving, pendingAtEnd = true, true
+					defer os.Remove(strings.Replace(s, ".npz", "_inprogress.npz", 1))
+				}
+			}
 			// the source ends itself now; requests keep arriving: immediately (racing) or a little later
 			close(k.self.endNow)
 			k.selfEnded = true
@@ -1525,6 +1595,9 @@ func vRunControl(c *vCase) {
 				k.do("SendAllStatus()", "ok", func() error { return k.sc.SendAllStatus(&s, &okay) })
 			}
 		}
+	}
+	if pendingAtEnd && !k.dead && k.selfEnded && !stopThenStart {
+		k.restartSelfEnded()
 	}
 	if !k.dead {
 		if k.active {
@@ -1614,7 +1687,7 @@ func init() {
 		},
 		Run: vRunControl,
 		Meta: vMeta{Level: "exploration",
-			Rule: "case = one client session against an in-package SourceControl: 1-3 requests with no source, Start of Triangle / scripted Lancero card / ErroringSource / a self-ending source (error block or closed channel at a scripted request index, requests continuing at once or after it settled), then 12-30 requests drawn from every queued request type with valid and invalid arguments (negative, too large, empty, nil and 2^40 channel indices, invalid pulse lengths, malformed/truncated/empty/wrong-shape matrices, every write-control string with all file-type subsets, empty/huge labels and comments, coupling on sources without it, mix lists of unequal length, raw-block sizes 0/negative/2^50, pixel maps that do not cover the channel numbers) and single I/O faults (output base path is a file, comment.txt uncreatable, experiment-state file uncreatable or on a full disk, external-trigger file uncreatable); 15 % of the requests are issued while the hook holds a block inside ProcessSegments. Monitors: reply class vs. model, effect/ProcessSegments span overlap, >=2 further blocks processed after each reply, every call returns (wait-state analysis), process crash = violation of the journaled case; non-trivial = session completed; additions: partly valid group-trigger requests with a monitor of the GROUPTRIGGER update sent to clients, raw-block sizes up to MaxInt64, Stop-then-Start straight after a self-termination, and backlog sessions (a block on offer at every block boundary, enforced at the core.idle hook) with a starvation monitor counting blocks processed while a request waits; two directed scenarios with a second client (a second goroutine, as a second connection is served): SendAllStatus while a Start is held right after the source was sampled (1 session in 4 of Triangle/Lancero), and START with OFF files against ConfigureProjectorsBasis with another number of components, both waiting at the queue while a block is held (1 session in 5), after which the open OFF file's header and the model in use are read from inside the core loop and must agree",
+			Rule: "case = one client session against an in-package SourceControl: 1-3 requests with no source, Start of Triangle / scripted Lancero card / ErroringSource / a self-ending source (error block or closed channel at a scripted request index, requests continuing at once or after it settled), then 12-30 requests drawn from every queued request type with valid and invalid arguments (negative, too large, empty, nil and 2^40 channel indices, invalid pulse lengths, malformed/truncated/empty/wrong-shape matrices, every write-control string with all file-type subsets, empty/huge labels and comments, coupling on sources without it, mix lists of unequal length, raw-block sizes 0/negative/2^50, pixel maps that do not cover the channel numbers) and single I/O faults (output base path is a file, comment.txt uncreatable, experiment-state file uncreatable or on a full disk, external-trigger file uncreatable); 15 % of the requests are issued while the hook holds a block inside ProcessSegments. Monitors: reply class vs. model, effect/ProcessSegments span overlap, >=2 further blocks processed after each reply, every call returns (wait-state analysis), process crash = violation of the journaled case; non-trivial = session completed; additions: partly valid group-trigger requests with a monitor of the GROUPTRIGGER update sent to clients, raw-block sizes up to MaxInt64, Stop-then-Start straight after a self-termination, and backlog sessions (a block on offer at every block boundary, enforced at the core.idle hook) with a starvation monitor counting blocks processed while a request waits; two directed scenarios with a second client (a second goroutine, as a second connection is served): SendAllStatus while a Start is held right after the source was sampled (1 session in 4 of Triangle/Lancero), and START with OFF files against ConfigureProjectorsBasis with another number of components, both waiting at the queue while a block is held (1 session in 5), after which the open OFF file's header and the model in use are read from inside the core loop and must agree; refused pulse-length requests are repeated at once (must be refused again); half of the self-ending sessions have a raw-data request still collecting when the source ends, after which the same object is started again (same or other channel count), must process blocks and must accept and complete a new raw-data request",
 			Assumptions: []string{"one client issues the session's requests (one goroutine); a second client appears only in the two directed scenarios, where what it does is decided (no second stream of arbitrary requests)", "the fire-and-forget mode of SetExperimentStateLabel is excluded as the property says", "where the statement does not fix the reply (raw-block size 0, deleting a connection that cannot exist, reading a comment after self-termination) either reply is accepted",
 				"hangs are decided by wait-state analysis of two goroutine dumps 2 s apart after a 15 s watchdog, never by the clock alone"},
 			Guards: map[string]map[string]int{
